@@ -197,10 +197,15 @@ def main():
             ('BeliefPropagationOSDDecoder', 'Color666PlanarCode', (1, 1), {}, (1 / 3, 1 / 3, 1 / 3)),
             ('BeliefPropagationOSDDecoder', 'Toric3DCode', (2, 2, 2), {}, (0.25, 0.25, 0.5)),
             ('XCubeMatchingDecoder', 'XCubeCode', (2, 2, 2), {}, (0.0, 0.0, 1.0)),
+            ('XCubeMatchingDecoder', 'XCubeCode', (3, 3, 3), {}, (0.05, 0.05, 0.9), 'noise:XZZX'),
+            ('XCubeMatchingDecoder', 'XCubeCode', (2, 3, 3), {}, (0.05, 0.05, 0.9), 'noise:XZZX'),
             ('SweepMatchDecoder', 'Toric3DCode', (3, 3, 3), {}, (1 / 3, 1 / 3, 1 / 3)), ('SweepMatchDecoder', 'Planar3DCode', (2, 3, 2), {}, (1 / 3, 1 / 3, 1 / 3)),
             ('RotatedSweepMatchDecoder', 'RotatedPlanar3DCode', (2, 2, 2), {}, (1 / 3, 1 / 3, 1 / 3)),
         ]
         for st in setups:
+            if len(st) == 6:      # undeformed code, deformed NOISE (unequal edge weights in the plane matchers)
+                tasks.append(st[:5] + (st[5], tier, seed))
+                continue
             for dn in ([None] if st[0] != 'BeliefPropagationOSDDecoder' or st[1] not in ('Toric2DCode', 'Planar2DCode') else [None, 'XZZX']):
                 tasks.append(st + (dn, tier, seed))
         with Pool(16) as pool:
@@ -219,6 +224,9 @@ def main():
             sel = noises if tier == 'thorough' else [noises[1], noises[2]] + rng.sample([noises[0]] + noises[3:], 2)
             for p in ((0.05, 0.2, 0.4) if tier == 'thorough' else (rng.choice([0.05, 0.2, 0.4]),)):
                 tasks.append((cls, size, sel, p, tier, seed, outdir))
+        # high rate, marginals still below 1/2 (depolarising: 2p/3 < 1/2 up to p = 0.75)
+        for cls, size in [lat[2], lat[6], lat[9]] if tier == 'quick' else lat:
+            tasks.append((cls, size, [noises[0]], 0.7, tier, seed, outdir))
         with Pool(16) as pool:
             res = [r for rs in pool.map(optimal_lattice, tasks) for r in rs]
         # correctable sets: every Pauli error of weight <= (d-1)/2
@@ -230,6 +238,7 @@ def main():
                 if L <= 5:
                     ctasks.append(('MatchingDecoder', cls, (L, L + 1), tier, seed))
             ctasks.append(('UnionFindDecoder', 'Toric2DCode', (L, L), tier, seed))
+        ctasks += [('MatchingDecoder@0.7', cls, (3, 3), tier, seed) for cls in ('Toric2DCode', 'Planar2DCode', 'RotatedPlanar2DCode')]
         ctasks += [('SweepMatchDecoder', 'Toric3DCode', (3, 3, 3), tier, seed), ('SweepMatchDecoder', 'Toric3DCode', (3, 4, 3), tier, seed),
                    ('RotatedSweepMatchDecoder', 'RotatedPlanar3DCode', (3, 3, 3), tier, seed), ('RotatedSweepMatchDecoder', 'RotatedPlanar3DCode', (3, 4, 3), tier, seed)]
         with Pool(16) as pool:
@@ -354,7 +363,10 @@ def correct_task(task):
         with contextlib.redirect_stdout(io.StringIO()):
             code = build_code(cls, size, None, None)
             em = PauliErrorModel(1 / 3, 1 / 3, 1 / 3)
-            dec = make_decoder(decname, code, em, 0.1)
+            rate = 0.1
+            if '@' in decname:          # the same decoder built for a high error rate (marginals still below 1/2)
+                decname, rate = decname.split('@')[0], float(decname.split('@')[1])
+            dec = make_decoder(decname, code, em, rate)
             n = code.n
             d = int(code.d)
             t = (d - 1) // 2 if 'Sweep' not in decname else (1 if d >= 3 else 0)
@@ -391,8 +403,9 @@ def pure_task(task):
     rec = {'decoder': decname, 'cls': cls, 'size': list(size), 'params': kw, 'deformation': dn, 'direction': list(direction), 'bad': [], 'n_checks': 0}
     try:
         with contextlib.redirect_stdout(io.StringIO()):
-            code = build_code(cls, size, dn, None)
-            em = PauliErrorModel(*direction, deformation_name=dn)
+            noise_only = isinstance(dn, str) and dn.startswith('noise:')
+            code = build_code(cls, size, None if noise_only else dn, None)
+            em = PauliErrorModel(*direction, deformation_name=(dn.split(':')[1] if noise_only else dn))
             p = 0.1
             mk = lambda: make_decoder(decname, code, em, p, **kw)
             n = code.n
@@ -403,6 +416,33 @@ def pure_task(task):
                     e = np.zeros(2 * n, dtype='uint8')
                     e[half + q] = 1
                     errs.append(e)
+            # images of a few low-weight errors under the axis permutations that map the lattice to itself: the same local pattern
+            # seen by a differently oriented part of the decoder (histories e then image(e) are added below)
+            sym_pairs = []
+            if len(size) == 3 and decname == 'XCubeMatchingDecoder' and len(set(size)) < 3:
+                import itertools as _it
+                perms = [pm for pm in _it.permutations(range(3)) if pm != (0, 1, 2) and tuple(size[i] for i in pm) == tuple(size)]
+                qi = code.qubit_index
+                for _ in range(40 if tier == 'quick' else 200):
+                    supp = rng.sample(range(n), rng.choice([2, 2, 3]))
+                    half = rng.choice([0, n])
+                    pm = rng.choice(perms)
+                    img = []
+                    for q in supp:
+                        c_ = code.qubit_coordinates[q]
+                        c2_ = tuple(c_[i] for i in pm)
+                        if c2_ not in qi:
+                            img = None
+                            break
+                        img.append(qi[c2_])
+                    if img is None:
+                        continue
+                    e1, e2 = np.zeros(2 * n, dtype='uint8'), np.zeros(2 * n, dtype='uint8')
+                    for q in supp:
+                        e1[half + q] = 1
+                    for q in img:
+                        e2[half + q] = 1
+                    sym_pairs.append((e1, e2))
             syns = []
             seen = set()
             for e in errs:
@@ -413,6 +453,14 @@ def pure_task(task):
             limit = 14 if tier == 'quick' else 40
             if len(syns) > limit:
                 syns = syns[:3] + rng.sample(syns[3:], limit - 3)
+            sym_hists = []
+            for e1, e2 in sym_pairs:
+                idx = []
+                for e in (e1, e2):
+                    s_ = code.measure_syndrome(e)
+                    syns.append(s_)
+                    idx.append(len(syns) - 1)
+                sym_hists += [[idx[0], idx[1]], [idx[1], idx[0]]]
             probs0 = [np.array(a, copy=True) for a in em.probability_distribution(code, p)]
 
             def validity(c, s_):
@@ -437,10 +485,11 @@ def pure_task(task):
             for j, s2 in enumerate(syns):
                 fresh[j] = dec_once(mk(), s2, 'uint8')[0]
             # all ordered pairs (s1 then s2) on ONE object, and random longer histories
-            hists = [(i, j) for i in range(len(syns)) for j in range(len(syns))]
+            nbase = len(syns) - 2 * len(sym_pairs)
+            hists = [(i, j) for i in range(nbase) for j in range(nbase)]
             if tier == 'quick' and len(hists) > 120:
                 hists = rng.sample(hists, 120)
-            hists = [[i, j] for i, j in hists] + [[rng.randrange(len(syns)) for _ in range(rng.randint(3, 20))] for _ in range(6 if tier == 'quick' else 40)]
+            hists = sym_hists + [[i, j] for i, j in hists] + [[rng.randrange(len(syns)) for _ in range(rng.randint(3, 20))] for _ in range(6 if tier == 'quick' else 40)]
             for h in hists:
                 d = mk()
                 dtype = rng.choice(['uint8', 'int64', 'int64', 'uint8', 'int32'])
